@@ -7,6 +7,18 @@ WORLDS = {
         'rewrite': [('.', 'sync'), ('runtime', 'sync')],
         'needs_templ': True,
         'prep_hook': 'render_corpus',
+        'export_files': {'runtime/zz_verif_export.go': '''package runtime
+
+// SetDevelopmentMode switches development-mode rendering (normally fixed at start-up from TEMPL_DEV_MODE).
+func SetDevelopmentMode(b bool) { developmentMode = b }
+
+// ResetWatchCache empties the development-mode literal cache (what a process restart does).
+func ResetWatchCache() {
+	watchStateMutex.Lock()
+	watchModeCache = map[string]watchState{}
+	watchStateMutex.Unlock()
+}
+'''},
         'trimpath': False,
     },
     'sse': {
@@ -51,6 +63,47 @@ PROPS = {
         'real': ['templ.Handler / ComponentHandler.ServeHTTP, ServeHTTPBuffered, ServeHTTPStreamed', 'templ.GetBuffer/ReleaseBuffer', 'generated combinator corpus', 'templ/runtime buffers'],
         'stubbed': ['http.ResponseWriter (recorder with commit-time header snapshot)', 'failing components', 'request context', 'sync.Pool (simsync.Pool)'],
         'assumptions': ['the recorder commits headers at the first WriteHeader/Write like net/http', 'simsync.Pool is a superset of sync.Pool behaviours'],
+    },
+    'C12': {
+        'world': 'render',
+        'level': 'exploration',
+        'builds': {'default': {}},
+        'tiers': {
+            'quick': {'runs': 6000, 'params': {'max_nodes': 30, 'max_contexts': 4, 'max_steps': 2000}, 'per_run_timeout': 5.0},
+            'thorough': {'runs': 250000, 'params': {'max_nodes': 60, 'max_contexts': 5, 'max_steps': 5000}, 'per_run_timeout': 10.0, 'shrink_budget_s': 300},
+        },
+        'rule': 'one run = a finite universe (2-7 script values over 5 script templates incl. JSFuncCall, 2-5 css components, 1-3 once handles, some created WithComponent) and '
+                '1-4 contexts, each hosting 1-3 sequential renders of tape-drawn use trees (script component, on* attributes single/double/conditional/hx-on, class expressions '
+                'in every container form, once handles with child block / marker / WithComponent, nested through calls, slots, conditionals, Join) into one writer; contexts are tasks '
+                'interleaved at writer and expression seams; optionally served through NewCSSMiddleware with a registered subset; every context document is checked against the '
+                'registry oracle. distinct = event-log hash; non-trivial = at least two uses were rendered and checked',
+        'real': RENDER_REAL + ['templ.NewCSSMiddleware / CSSHandler', 'templ.Handler'],
+        'stubbed': ['io.Writer / ResponseWriter (park at every write)', 'expression bodies', 'sync.Pool (simsync.Pool)'],
+        'assumptions': ['the history dimension (use sequences checked against a reference registry) does the finding; the schedule dimension contributes independence of interleaved contexts (DESIGN section 2)',
+                        'a context whose writer failed is only required to have failed (prefix rule is C10)',
+                        'an item defined but never used is not judged (the statement bounds emission by "at most once" and "before first use")'],
+    },
+    'C14': {
+        'world': 'render',
+        'level': 'exploration',
+        'builds': {'default': {}, 'race': {'race': True}},
+        'stages': [
+            {'name': 'main', 'build': 'default'},
+            {'name': 'race', 'build': 'race', 'params': {'burst': 1}, 'env': {'GORACE': 'halt_on_error=1'}, 'no_guard': True},
+        ],
+        'tiers': {
+            'quick': {'runs': 4000, 'stage_runs': {'race': 1500}, 'params': {'max_nodes': 10, 'max_tasks': 6, 'max_renders': 4, 'max_steps': 1500}, 'per_run_timeout': 5.0},
+            'thorough': {'runs': 150000, 'stage_runs': {'race': 40000}, 'params': {'max_nodes': 16, 'max_tasks': 8, 'max_renders': 5, 'max_steps': 4000}, 'per_run_timeout': 10.0, 'shrink_budget_s': 300},
+        },
+        'rule': 'one run = N tasks x M renders (own component, shared component value, or templ.Handler request) over shared once handles, pools and (dev-mode runs) the '
+                'text-file cache, parked at every writer Write/Flush and expression evaluation; stage main: one task released at a time by the tape on the adversarial pool; '
+                'stage race: -race build with the real sync.Pool, all parked tasks released together (bursts). distinct = (schedule hash, event-log hash); non-trivial = the '
+                'schedule switched between tasks at least once (main) or ran bursts (race)',
+        'real': RENDER_REAL + ['runtime/watchmode.go development-mode cache (dev-mode runs), text files written by the real FSEventHandler'],
+        'stubbed': ['io.Writer / http.ResponseWriter (park at every write)', 'expression bodies (park)', 'sync.Pool (simsync.Pool in stage main; real in stage race)', 'sync.Mutex (channel mutex)'],
+        'assumptions': ['tasks interleave only at seams (writer, flush, expression, start of render); code between two seams of one task is atomic in stage main',
+                        'race detection inside a burst is by happens-before; a replay of a race report is same seed and burst structure, not a byte-identical trace',
+                        'dev-mode TTL uses the real clock in this world; the text files are not edited here, so it cannot change bytes (C16 owns the TTL logic)'],
     },
     'C19': {
         'world': 'sse',
